@@ -1,10 +1,15 @@
 (* C12 - A mate in one is always found and truthfully reported.
    Proved: a mate-in-one score for the mover is the best realistic score and, once held, is never
    replaced (the comparison is strict); the root loop returns the first move achieving the best score.
-   OPEN: C12_finds / C12_honest over the search model (kept); decided per run on mate-in-one roots
+   Over the search model: a reported mate-in-one score comes with a move after which the opponent has no
+   generated move and is in check (C12_honest); if a generated move mates and the first pass completes, the
+   search returns a mating move with the mover's mate-in-one score at depth 0 (C12_finds).
+   `mates_now` holds for a mating move unless it is a capture leaving insufficient material (the shortcut runs
+   first in the code; no such position is a mate in real chess - not proved).  Lifting "no generated move and
+   in check" to Rules.is_mate is C01/C03.  Also decided per run on mate-in-one roots
    (zero, one, several mating moves) against the rules-level enumeration of mating moves. *)
 From Coq Require Import NArith ZArith List Bool.
-From Chess Require Import base.Types model.Score model.Board model.Search spec.Rules spec.GameTree proofs.GameTreeFacts proofs.SearchOrder.
+From Chess Require Import base.Types model.Score model.Board model.Search spec.Rules spec.GameTree proofs.GameTreeFacts proofs.SearchOrder model.MoveGen spec.IterSpec proofs.SearchFacts.
 Local Open Scope N_scope.
 
 Theorem C12_white_mate_in_one_is_best : forall s, realistic s -> cmp s (SWhiteMateIn 1) <> Gt.
@@ -18,7 +23,16 @@ Theorem C12_mate_in_one_kept : forall c s, realistic s ->
 Proof. exact mate1_kept. Qed.
 Print Assumptions C12_mate_in_one_kept.
 
-Definition C12_honest_statement : Prop :=
-  forall k passes fuel root m d f,
-    Search.search k nil passes fuel root = (Some m, mate_score (opp (b_turn root)) 1, d, f) ->
-    is_mate (make (abs root) m) = true.
+Theorem C12_honest : forall k tf passes fuel root m d f,
+  Search.search k tf passes fuel root = (Some m, mate_score (opp (b_turn root)) 1, d, f) ->
+  mg_is_empty (legals_gen (Apply.apply root m)) = true /\ Board.in_check (Apply.apply root m) = true.
+Proof. exact search_mate1_honest. Qed.
+Print Assumptions C12_honest.
+
+Theorem C12_finds : forall k tf passes fuel root sc best st' m,
+  small_root root -> In m (legals root) -> mates_now k tf root m ->
+  pass k tf (fuel + N.to_nat 0) root 0 None {| s_polls := 0; s_evals := 0 |} = PassDone sc best st' ->
+  exists m', Search.search k tf (S passes) fuel root = (Some m', mate1 (b_turn root), 0, false) /\
+             mg_is_empty (legals_gen (Apply.apply root m')) = true /\ Board.in_check (Apply.apply root m') = true.
+Proof. exact search_finds_mate1. Qed.
+Print Assumptions C12_finds.
